@@ -54,6 +54,9 @@ package eth2wrap
 //@ loop 1 invariant ncalls(fork) == atentry(ncalls(fork)) + $i && roundForks == $i
 //@ loop 2 invariant roundForks == atentry(roundForks)
 //@ loop 2 invariant all(q, *bestSelector, q != bestSelector ==> q.counts == old(q.counts) && q.start == old(q.start))
+// a round over a group ends before every member has answered only with a successful answer or because the caller's
+// context ended: a failed answer of one member (whatever its class) never ends the round while others are outstanding
+//@ loop 2 return (r1 == nil && isSuccessFunc(r0)) || (ctx.Err() != nil && r1 == ctx.Err())
 
 // submit is provide with the result dropped: the same primaries, fallbacks and selector, one provide round, and the
 // work function runs only inside it (so the fallback decision of provide applies to every submission).
